@@ -263,10 +263,18 @@ def run(ctx):
                         # the model's own reader applied to the model's text must give back the skeleton the
                         # real regular expression / tree yields
                         cases.append(('html_read', 'html_read ' + T.enc_tree(t), 'ok ' + enc_hskel(t), desc))
-            elif f == 'xml' and out is not None:
-                cases.append(('xml', 'xml ' + enc_batch, 'ok ' + X.canon(etree.fromstring(out.encode('utf-8'))), desc))
-            elif f == 'jigg_xml' and out is not None:
-                cases.append(('jigg', f'jigg {1 if lang == "ja" else 0} {enc_batch}', 'ok ' + X.canon(etree.fromstring(out.encode('utf-8'))), desc))
+            elif f == 'xml':
+                if out is not None:
+                    cases.append(('xml', 'xml ' + enc_batch, 'ok ' + X.canon(etree.fromstring(out.encode('utf-8'))), desc))
+                # the serialised text itself, character by character (Print/XmlText.lean)
+                cases.append(('xml_text', 'xml_text ' + enc_batch, 'ok ' + enc_str(out) if out is not None else err, desc))
+            elif f == 'jigg_xml':
+                if out is not None:
+                    cases.append(('jigg', f'jigg {1 if lang == "ja" else 0} {enc_batch}', 'ok ' + X.canon(etree.fromstring(out.encode('utf-8'))), desc))
+                if all(st.score == -float('inf') or st.score * 64 == int(st.score * 64) for sent in batch for st in sent):
+                    enc_k = f'{len(batch)} ' + ' '.join(f'{len(sent)} ' + ' '.join(
+                        ('ninf' if st.score == -float('inf') else str(int(st.score * 64))) + ' ' + T.enc_tree(st.tree) for st in sent) for sent in batch)
+                    cases.append(('jigg_text', f'jigg_text {1 if lang == "ja" else 0} {enc_k}', 'ok ' + enc_str(out) if out is not None else err, desc))
             if out is None:
                 continue
             if f == 'conll' and all('\t' not in v and '\n' not in v for _, t in flat for tok in t.tokens for v in tok.values()):
@@ -430,6 +438,7 @@ def run(ctx):
         cases.append(('mathml_cat', 'mathml_cat ' + enc_str(t), got, t))
         ctx.evaluations += 1
     ctx.sample({'formats_en': R.offered('en'), 'formats_ja': R.offered('ja')})
+    cases += control_chars_cases(ctx, ctx.budget(40, 400))
     import cli_common
     cases += cli_common.numfmt_suite(ctx, ctx.budget(300, 3000))      # '{:.8f}', '{:.5e}', repr of the scores
     ctx.extra['skipped_unsupported'] = common.compare_with_model(ctx, cases)
@@ -453,6 +462,38 @@ def leaf_attrs(d):
     if d[0] == 'L':
         return [d[3]]
     return [a for k in d[4] for a in leaf_attrs(k)]
+
+
+def control_chars_cases(ctx, count):
+    """model only (outside the property's token domain): words holding control characters, U+FFFE / U+FFFF,
+    DEL, line / paragraph separators — `element.set` of lxml refuses some (ValueError for the whole call),
+    json escapes all of them"""
+    rng = ctx.rng
+    pool = ['a\x0bb', 'x\x0c', '\x1cq', 'p\x1dq', 'u\x1ev', 'n\x85m', 'l\u2028s', 'p\u2029s', 'a\x00', '\x08', 'z\x7f', '\ufffe', 'q\uffff',
+            'a\tb', 'c\nd', 'e\rf', '\ufffd', '\U0010ffff', 'é\U0001f600', ' ', '"&<>\'']
+    cases = []
+    for i in range(count):
+        lang = 'ja' if i % 3 == 2 else 'en'
+        batch = R.make_batch(rng, lang, n_sent=rng.randint(1, 2), licensed_only=True, awkward=0.0)
+        for sent in batch:
+            for st in sent:
+                for tok in st.tree.tokens:
+                    if rng.random() < (0.15 if i % 2 else 0.5):
+                        tok[rng.choice(['word', 'word', 'lemma', 'pos'])] = rng.choice(pool)
+        desc = {'lang': lang, 'batch': [[T.enc_tree(st.tree)[:700] for st in sent] for sent in batch]}
+        enc_batch = X.enc_batch(batch)
+        enc_k = f'{len(batch)} ' + ' '.join(f'{len(sent)} ' + ' '.join(str(int(st.score * 64)) + ' ' + T.enc_tree(st.tree) for st in sent) for sent in batch)
+        for f in ['jigg_xml', 'json'] + (['xml'] if lang == 'en' else []):
+            ctx.evaluations += 1
+            try:
+                out = 'ok ' + enc_str(R.render(R.clone_batch(batch), f, lang))
+            except Exception as e:
+                out = 'err ' + wire.err_name(e)
+                ctx.extra['control_char_renderings_refused'] = ctx.extra.get('control_char_renderings_refused', 0) + 1
+            line = {'xml': 'xml_text ' + enc_batch, 'jigg_xml': f'jigg_text {1 if lang == "ja" else 0} {enc_k}', 'json': 'json_text ' + enc_k}[f]
+            cases.append((line.split(' ')[0], line, out, dict(desc, format=f)))
+            ctx.nontrivial_add(('ctl', f, enc_batch[:300]))
+    return cases
 
 
 def all_nodes(t):
